@@ -749,6 +749,14 @@ class Sym:
     def conjugate(self):
         return self
 
+    def clip(self, min=None, max=None, out=None, **kw):     # np.clip(x, lo, hi) calls x.clip(lo, hi)
+        r = self
+        if min is not None:
+            r = sym_max(r, min)
+        if max is not None:
+            r = sym_min(r, max)
+        return r
+
     def sqrt(self):
         return ctx().sqrt(self)
 
@@ -884,6 +892,11 @@ _UFUNC.update({
     np.sign: sym_sign,
     np.minimum: sym_min,
     np.maximum: sym_max,
+    __import__('numpy.core.umath', fromlist=['clip']).clip: lambda a, lo, hi: sym_min(sym_max(a, lo), hi),
+    np.fmin: sym_min,
+    np.fmax: sym_max,
+    np.absolute: lambda a: abs(a),
+    np.fabs: lambda a: abs(a),
     np.isnan: lambda a: False,
     np.isinf: lambda a: False,
     np.isfinite: lambda a: True,
